@@ -202,3 +202,7 @@ package aspect_elimination
 //@   property C01 C12 C20
 //@   nopanic
 //@   ensures [name] result == "aspectEliminationHeuristic"
+
+//@ func (*AspectEliminationBiasListener).getMethodParams
+//@   property C07 C12 C15 C18
+//@   ensures [listener_of_the_requests_level_source] pParams.Function in a.satisfactionLevelsUpdateListeners.Listeners && result0 == a.satisfactionLevelsUpdateListeners.Listeners[pParams.Function]
